@@ -42,7 +42,18 @@ func enc(in input) json.RawMessage {
 }
 
 var kinds = []string{"err", "unparseable", "exit", "kill", "panic", "defer-err", "defer-skip", "defer-ignore", "defer-exit",
-	"skip", "skipw", "ignore", "ignorew", "err-after-render"}
+	"skip", "skipw", "ignore", "ignorew", "err-after-render",
+	"defer-nest-then-err", "defer-err-self-nest", "defer-err-then-nest", "defer-round2-err", "defer-err-nest-elsewhere", "defer-nest-then-exit", "defer-nested-err"}
+
+// nestKinds: a callback of the failing callback's ROUND registers a further callback (seeded change C02-e: a queue worked
+// off in rounds must stop at the first failure, whatever was registered meanwhile).  The failing sibling stands after the
+// registering callback, IS the registering callback (it registers, then fails), stands before it, fails in the second
+// round while a third one has been registered, or belongs to another type of the same (package, generator); the further
+// callbacks always succeed and render something.
+var nestKinds = []string{"defer-nest-then-err", "defer-err-self-nest", "defer-err-then-nest", "defer-round2-err", "defer-err-nest-elsewhere",
+	"defer-nest-then-exit", "defer-nested-err"}
+
+func okDefer(tag string) pipe.DeferStep { return pipe.DeferStep{Body: "var Nested_" + tag + " = 1\n"} }
 
 func clone(sc pipe.Scenario) pipe.Scenario {
 	b, _ := json.Marshal(sc)
@@ -83,6 +94,35 @@ func inject(sc pipe.Scenario, f fault) pipe.Scenario {
 		case "defer-exit":
 			st.Res = ""
 			st.Defers = append(st.Defers, pipe.DeferStep{Res: "exit"})
+		case "defer-nest-then-err": // a sibling registers a callback, a LATER sibling of the same round fails
+			st.Res = ""
+			st.Defers = append(st.Defers, pipe.DeferStep{Body: "var Registering = 1\n", Nested: []pipe.DeferStep{okDefer("a")}}, pipe.DeferStep{Res: "err"},
+				pipe.DeferStep{Body: "var AfterTheFailure = 1\n"})
+		case "defer-nest-then-exit":
+			st.Res = ""
+			st.Defers = append(st.Defers, pipe.DeferStep{Nested: []pipe.DeferStep{okDefer("a")}}, pipe.DeferStep{Res: "exit"})
+		case "defer-err-self-nest": // the failing callback itself registered a callback before it failed
+			st.Res = ""
+			st.Defers = append(st.Defers, pipe.DeferStep{Res: "err", Nested: []pipe.DeferStep{okDefer("a"), okDefer("b")}})
+		case "defer-err-then-nest": // the failing callback stands BEFORE the registering one (which must not run at all)
+			st.Res = ""
+			st.Defers = append(st.Defers, pipe.DeferStep{Res: "err"}, pipe.DeferStep{Nested: []pipe.DeferStep{okDefer("a")}})
+		case "defer-round2-err": // failure in the second round, a third round has been registered by its sibling
+			st.Res = ""
+			st.Defers = append(st.Defers, pipe.DeferStep{Nested: []pipe.DeferStep{{Nested: []pipe.DeferStep{okDefer("aa")}}, {Res: "err"}}})
+		case "defer-nested-err": // the further callback itself fails
+			st.Res = ""
+			st.Defers = append(st.Defers, pipe.DeferStep{Nested: []pipe.DeferStep{{Res: "err"}, okDefer("b")}})
+		case "defer-err-nest-elsewhere": // the registering callbacks belong to the OTHER types of the same (package, generator)
+			st.Res = ""
+			st.Defers = append(st.Defers, pipe.DeferStep{Res: "err"})
+			pkg := f.Key[:strings.Index(f.Key, " ")+1]
+			for k, other := range c.Gens[gi].Steps {
+				if k != f.Key && strings.HasPrefix(k, pkg) && (other.Res == "" || other.Res == "skip" || other.Res == "ignore") {
+					other.Defers = append(other.Defers, pipe.DeferStep{Nested: []pipe.DeferStep{okDefer("o")}})
+					c.Gens[gi].Steps[k] = other
+				}
+			}
 		}
 		c.Gens[gi].Steps[f.Key] = st
 	}
@@ -127,11 +167,20 @@ func corner() []input {
 			out = append(out, input{Scenario: inject(base, f), Fault: &f})
 		}
 	}
+	// callbacks that register callbacks while a sibling of their round fails, and a death that unwinds the stack (panic: deferred
+	// functions of Execute run, unlike after os.Exit / SIGKILL): every kind at every point
+	for _, p := range points(base) {
+		for _, k := range append(append([]string{}, nestKinds...), "panic") {
+			f := fault{p.gen, p.key, k}
+			out = append(out, input{Scenario: inject(base, f), Fault: &f})
+		}
+	}
 	return out
 }
 
 func (prop) Generate(r *core.RNG, tier string) []json.RawMessage {
 	modules, perModule, crashes := 7, 16, 0
+	const nestPoints = 2
 	if tier == "thorough" {
 		modules, perModule, crashes = 16, 120, 3
 	}
@@ -168,6 +217,15 @@ func (prop) Generate(r *core.RNG, tier string) []json.RawMessage {
 			}
 			fs = head
 		}
+		if tier != "thorough" { // quick: additionally every nesting kind and a panic at (up to) nestPoints points of the module
+			ps := points(sc)
+			for n := 0; n < nestPoints && len(ps) > 0; n++ {
+				p := ps[r.Intn(len(ps))]
+				for _, k := range append(append([]string{}, nestKinds...), "panic") {
+					fs = append(fs, fault{p.gen, p.key, k})
+				}
+			}
+		}
 		for _, f := range fs {
 			f := f
 			out = append(out, enc(input{Scenario: inject(sc, f), Fault: &f}))
@@ -192,7 +250,7 @@ func rank(kind string) int {
 	case "err", "unparseable", "kill", "defer-err":
 		return 0
 	}
-	return 1
+	return 1 // (the nesting kinds are added separately in quick, see Generate)
 }
 
 type crashStats struct {
